@@ -296,18 +296,23 @@ Lemma analyze_stats_NR cm cv cn tm tv tn : W cm -> W cv -> W cn -> W tm -> W tv 
 Proof.
   intros Hcm Hcv Hcn Htm Htv Htn. unfold rom_analyze_stats.
   pose proof (scale_and_distr_NR cv cn tv tn Hcv Hcn Htv Htn) as H1.
-  assert (Hlcv : W (cv / cm / cm)) by xw. assert (Hltv : W (tv / tm / tm)) by xw.
-  pose proof (scale_and_distr_NR (cv / cm / cm) cn (tv / tm / tm) tn Hlcv Hcn Hltv Htn) as H2.
-  destruct (rom_scale_and_distr fam cfg cv cn tv tn None) as [[s d] o1].
-  destruct (rom_scale_and_distr fam cfg (cv / cm / cm) cn (tv / tm / tm) tn None) as [[ls ld] o2].
+  (* the log-scale call: variances divided by the squared means, in whatever spelling the source uses *)
+  match goal with |- context [rom_scale_and_distr fam cfg ?lcv cn ?ltv tn None] =>
+    lazymatch lcv with cv => fail | _ => idtac end;
+    assert (Hlcv : W lcv) by xw; assert (Hltv : W ltv) by xw;
+    pose proof (scale_and_distr_NR lcv cn ltv tn Hlcv Hcn Hltv Htn) as H2;
+    destruct (rom_scale_and_distr fam cfg cv cn tv tn None) as [[s d] o1];
+    destruct (rom_scale_and_distr fam cfg lcv cn ltv tn None) as [[ls ld] o2]
+  end.
   destruct H1 as [Hs Hd], H2 as [Hls Hld]. apply PL_NR in Hs. apply PL_NR in Hls. cbv zeta.
   assert (Hstat : W ((tm - cm) / s)) by xw.
   assert (Heff : W (tm - cm)) by xw. assert (Hratio : W (tm / cm)) by xw.
-  destruct (alternative_eqb (cfg_alternative cfg) Greater).
+  (* the branch tests, whichever way round the source writes the comparison *)
+  match goal with |- context [if alternative_eqb ?x ?y then _ else _] => destruct (alternative_eqb x y) end.
   - destruct (Hd (cfg_confidence_level cfg) Hcl) as (_ & _ & _ & Hi). destruct (Hld (cfg_confidence_level cfg) Hcl) as (_ & _ & _ & Hli).
     destruct (Hd ((tm - cm) / s) (W_NR _ Hstat)) as (_ & Hsf & _). apply PL_NR in Hi, Hli, Hsf.
     unfold result_NR, ext_NR, esub. projs. repeat split; xn.
-  - destruct (alternative_eqb (cfg_alternative cfg) Less).
+  - match goal with |- context [if alternative_eqb ?x ?y then _ else _] => destruct (alternative_eqb x y) end.
     + destruct (Hd (cfg_confidence_level cfg) Hcl) as (_ & _ & Hp & _). destruct (Hld (cfg_confidence_level cfg) Hcl) as (_ & _ & Hlp & _).
       destruct (Hd ((tm - cm) / s) (W_NR _ Hstat)) as (Hcdf & _). apply PL_NR in Hp, Hlp, Hcdf.
       unfold result_NR, ext_NR, esub. projs. repeat split; xn.
@@ -368,10 +373,9 @@ Lemma analyze_stats_point_fields cm cv cn tm tv tn :
   mr_control r = cm /\ mr_treatment r = tm /\ mr_effect_size r = tm - cm /\ mr_rel_effect_size r = tm / cm - nlit 1.
 Proof.
   cbv zeta. unfold rom_analyze_stats.
-  destruct (rom_scale_and_distr fam cfg cv cn tv tn None) as [[s d] o1].
-  destruct (rom_scale_and_distr fam cfg (cv / cm / cm) cn (tv / tm / tm) tn None) as [[ls ld] o2].
-  destruct (alternative_eqb (cfg_alternative cfg) Greater); [repeat split|].
-  destruct (alternative_eqb (cfg_alternative cfg) Less); repeat split.
+  repeat match goal with |- context [rom_scale_and_distr fam cfg ?a ?b ?c ?d None] =>
+           destruct (rom_scale_and_distr fam cfg a b c d None) as [[? ?] ?] end.
+  repeat match goal with |- context [if alternative_eqb ?x ?y then _ else _] => destruct (alternative_eqb x y) end; repeat split.
 Qed.
 
 Hypothesis Hnc : cfg_numer_covariate cfg = None.
